@@ -63,18 +63,18 @@ REQ_SETS = (
     "C11", "http_proxy_hop",
     quick=[{"px": px, "flavour": "sync"} for px in ("http", "https")],
     thorough=[{"px": px, "flavour": fl} for px in ("http", "https") for fl in ("sync", "async")],
-    example=dict(auth=True, ph=2, rq=1, secure=True, port=1, st=0, sni=False, tgt=True),
+    example=dict(auth=True, ph=2, rq=1, secure=True, port=1, st=0, sni=False, tgt=True, v6=True),
     require=("C11:forwarded", "C11:forwarded-twice", "tunnelled", "connect-refused", "target-extension"),
     timeout={"quick": 300, "thorough": 600},
-    symbolic="credentials on/off; proxy header set (3, one colliding case-insensitively); request method/headers/body (4, incl. User-Agent/Authorization/Cookie); origin scheme http/https; port default/other; CONNECT reply status from 8 values; whether the request carries the `target` extension",
+    symbolic="credentials on/off; proxy header set (3, one colliding case-insensitively); request method/headers/body (4, incl. User-Agent/Authorization/Cookie); origin scheme http/https; port default/other; CONNECT reply status from 8 values; whether the request carries the `target` extension; origin host a name or an IPv6 literal",
     bounds="one request per run through an http:// or https:// proxy (forwarding: followed by a second request on the same connection)",
-    outside="IPv6-literal origins (known finding under C19); proxy replies with bodies",
+    outside="proxy replies with bodies",
     stubs=("ProxyServer model: strict parse of what the client wrote; answers CONNECT with the scripted status",),
     also=("C10",),
     per_prop={"C10": {"quick": [{"px": "http", "flavour": "sync", "_pre": "secure == True and ph == 0 and rq == 0 and port == 0 and sni == False"}],
                       "thorough": [{"px": px, "flavour": fl, "_pre": "secure == True and ph == 0"} for px in ("http", "https") for fl in ("sync", "async")]}},
 )
-def http_proxy_hop(auth: bool, ph: int, rq: int, secure: bool, port: int, st: int, sni: bool, tgt: bool) -> None:
+def http_proxy_hop(auth: bool, ph: int, rq: int, secure: bool, port: int, st: int, sni: bool, tgt: bool, v6: bool) -> None:
     """
     pre: 0 <= ph <= 2 and 0 <= rq <= 4 and 0 <= port <= 1 and 0 <= st <= 7
     post: _
@@ -91,13 +91,17 @@ def http_proxy_hop(auth: bool, ph: int, rq: int, secure: bool, port: int, st: in
     status = pick(st, CONNECT_STATUS) if is_secure else 200
     use_sni = bool(sni)
     raw = bool(tgt)
-    with concrete(use_auth, is_secure, other_port, status, method, use_sni, raw):
-        _http_proxy_hop(is_async, px, pheaders, method, rheaders, body, use_auth, is_secure, other_port, status, use_sni, raw)
+    lit = bool(v6)
+    if lit and (raw or use_sni or rheaders and rheaders[0][0] == b"Host"):
+        return  # the IPv6-literal origin is explored with the plain request variants
+    with concrete(use_auth, is_secure, other_port, status, method, use_sni, raw, lit):
+        _http_proxy_hop(is_async, px, pheaders, method, rheaders, body, use_auth, is_secure, other_port, status, use_sni, raw,
+                        "[2001:db8::1]" if lit else "o.test")
 
 
 def _http_proxy_hop(is_async: bool, px: str, pheaders: list, method: str, rheaders: list, body: typing.Any,
                     use_auth: bool, is_secure: bool, other_port: bool, status: int, use_sni: bool = False,
-                    raw_target: bool = False) -> None:
+                    raw_target: bool = False, ohost: str = "o.test") -> None:
     vrt.new_runtime(clock=7)
 
     origins: list[AutoOrigin] = []
@@ -124,7 +128,7 @@ def _http_proxy_hop(is_async: bool, px: str, pheaders: list, method: str, rheade
     api = scen.Api(is_async)
     scheme = "https" if is_secure else "http"
     eff = (8443 if is_secure else 8080) if other_port else (443 if is_secure else 80)
-    hostport = f"o.test:{eff}" if other_port else "o.test"
+    hostport = f"{ohost}:{eff}" if other_port else ohost
     url = f"{scheme}://{hostport}/path?q=1"
     path = b"/path?q=1"
     more: dict[str, typing.Any] = {"sni_hostname": "front.test"} if use_sni else {}
@@ -181,7 +185,7 @@ def _http_proxy_hop(is_async: bool, px: str, pheaders: list, method: str, rheade
     if not pr.connect_requests:
         return
     creq = pr.connect_requests[0]
-    target = f"o.test:{eff}".encode()
+    target = f"{ohost}:{eff}".encode()
     P.check(pr.requests[0] is creq, "connect-is-first-message", "proxy:tunnel:connect-not-first")
     P.check(creq.target == target, "connect-target-is-host:port", lambda: f"proxy:tunnel:target:{creq.target!r}")
     P.check(creq.header(b"Host") == [target], "connect-host-header", "proxy:tunnel:host")
